@@ -307,6 +307,10 @@ def run_state(acc, cseed, platform, fw, nets, cmpf, Stack, SimDevice):
         # random data, so anything remembered from before shows up as a difference
         if platform != "sgx":
             history(acc, rng, s, dev, fw, cmpf, case, netname != "invalid")
+        if platform != "ledger" and netname != "invalid":
+            # (over TCP the transport sets no time limit of its own: slow is any length)
+            slow_answers(acc, rng, s, dev, fw, cmpf, case, hb, pubkeys, uihb,
+                         secs=rng.choice([2.5, 9.0, 10.5, 11.5, 31.0, 61.0]), tcp=True)
         if platform == "ledger" and netname != "invalid":
             slow_answers(acc, rng, s, dev, fw, cmpf, case, hb, pubkeys, uihb)
             late_answers(acc, rng, s, dev, fw, cmpf, case, hb, pubkeys, uihb)
@@ -482,29 +486,37 @@ def history(acc, rng, s, dev, fw, cmpf, case, params_ok):
         acc.distinct.add("history|%s" % name)
 
 
-def slow_answers(acc, rng, s, dev, fw, cmpf, case, hb, pubkeys, uihb):
+def slow_answers(acc, rng, s, dev, fw, cmpf, case, hb, pubkeys, uihb, secs=None, tcp=False):
     """a slow device: the answers to one command (or to all) take 1..9 s of virtual time -
     inside the ten seconds the host allows every exchange.  Nothing is late, so every
     reply that reports success carries that request's own data."""
     dev.state = {"hashes": {hid: art(rng, 32) for hid in fw.values()}, "difficulty": 7,
                  "flags": (0, 0, 0)}
-    secs = rng.choice([1.0, 2.5, 3.0, 4.5, 6.0, 8.0, 9.0])
+    secs = secs or rng.choice([1.0, 2.5, 3.0, 4.5, 6.0, 8.0, 9.0])
     which = rng.choice([0x43, 0x43, 0x06, 0x04, 0x20, 0x60, "*"])
+    if tcp:
+        which = rng.choice([0x04, 0x04, 0x20, 0x60, "*"])
     s.bus.slow_cmds = {which: secs}
     c2 = dict(case, slow_command=which, seconds=secs)
-    acc.count("slow_device_dialogues")
+    acc.count("slow_device_dialogues" + ("_over_tcp" if tcp else ""))
     pa, pb = rng.sample(ALL_PATHS, 2)
     reqs = [{"command": "uiHeartbeat", "version": 5, "udValue": rng.randbytes(32).hex()},
             {"command": "getPubKey", "version": 5, "keyId": pa},
             {"command": "blockchainState", "version": 5},
             {"command": "signerHeartbeat", "version": 5, "udValue": rng.randbytes(16).hex()},
             {"command": "getPubKey", "version": 5, "keyId": pb}]
-    if rng.random() < 0.5:
+    if rng.random() < 0.5 or tcp:
         reqs = reqs[1:]
     for request in reqs:
         reply, exc, _ = s.request(request)
         acc.evaluations += 1
         acc.count("replies_judged_from_a_slow_device")
+        if tcp and request["command"] == "getPubKey" and exc is None and \
+                isinstance(reply, dict) and reply.get("errorcode") != 0:
+            # (nothing was wrong with the request or the answer: it took its time)
+            acc.violation("slow-answer:getPubKey-refused-although-the-device-answered",
+                          {"reply": reply, "seconds": secs}, c2)
+            break
         what = request["command"]
         if exc is not None or not isinstance(reply, dict) or \
                 type(reply.get("errorcode")) is not int:
